@@ -22,7 +22,7 @@ TRUSTED = [
     "allocator, memo tables); tied to the real code only by the correspondence harness harness/c19.py",
     "translator translate/c19gen.py (Python `ast` reader for lib/std/inverse.py, control.py, op definitions, "
     "eval/quriparts.py gate mapping) and Found/Gate.lean's restatement of the documented gate matrices",
-    "exact-ring reflection Found/Poly.lean (soundness w.r.t. ℂ by construction, not formalised)",
+    "exact-ring reflection proved sound (Proof/PolySound, Proof/MatSound, Props/Reflect — obligations of C01): a discharged Template.check / checkExact / Poly identity holds in ℂ for all real angles; trusted spec = MatSound.embedAct / semCirc + Gate.localMat",
     "Python set iteration order (aux_qubits of full_expand) is treated as an arbitrary order σ",
     "installed quri_parts.rust 0.27 binary provides QuantumGate/QuantumCircuit",
 ]
